@@ -6,10 +6,8 @@ sys.path.insert(0, here)
 
 NOT_APPLICABLE = {
  "C02": "whole-document write->read round trip: Document::save -> PdfReader executes f64 formatting, zlib, std HashMap (hashbrown SIMD probing), buffered file I/O and an independent reader; none of it is encodable for CBMC within this machine (DESIGN.md 2: two HashMap inserts do not finish in 15 min). Operand-level kernels it rests on are decided under C09/C21.",
- "C03": "whole-file structure (header, xref offsets pointing at object starts, startxref, /Size, /Length, every reference resolving) needs Document::save and an independent checker over real bytes; the token-level part (string and name tokens syntactically valid) is decided under C09/C30 on the sliced serializer, and write_bytes/position accounting could not be separated from PdfWriter<W>'s 20-field state within the time available.",
  "C05": "needs whole-document write/read plus MD5/SHA-2/AES key schedules over symbolic data; hashing loops and block ciphers are beyond bit-blasting reach here (RC4 alone: 34.7 M clauses for 2 data bytes). The dropped /Encrypt entry in write_xref_stream is visible by reading but is not a solver question.",
  "C06": "requires the output of an independent implementation (qpdf) as input and whole-file decryption; no symbolic formulation within reach.",
- "C10": "the text-string path is Document info / form / outline plumbing -> Object::String -> escape -> file -> lexer -> decode_text_string; the only solver-sized pieces are decode_text_string on 1-2 bytes and the serializer's String arm (the latter decided under C09). decode_text_string was not assembled in the time available (it sits in parser/objects.rs behind from_utf8/UTF-16 decoding loops); the PDFDocEncoding table deviations it would expose are the same ones listed under C25.",
  "C11": "extract_from_page is a ~6k-line state machine over f64 matrices, font dictionaries in HashMaps and reading-order sorting of heap fragments; no separable kernel decides 'each glyph exactly once'.",
  "C12": "inputs are multi-hundred-kilobyte font binaries, table walks are loops over thousands of glyphs, outline equality needs an independent font parser.",
  "C13": "same inputs as C12 plus whole-document write and text extraction.",
@@ -19,7 +17,6 @@ NOT_APPLICABLE = {
  "C18": "flatten_page_tree/load_page_at_index resolve every node through PdfReader (I/O + HashMap dictionaries); inheritance is not a separable function.",
  "C19": "equality of two whole-file opens (intact vs damaged); the header scanner's panic-freedom is under C01 and the latest-wins rule under C04.",
  "C20": "the nondeterminism at stake is hash-map iteration order in the writer's recursive serializer; encoded with map order as an input (array map, both insertion orders) the Dictionary arm of write_object_value_to_buffer did not finish: the recursive method is unwound to the recursion bound at every Array/Dictionary call site with a symbolic variant (11 arms each) and std's sort_by_key is symex-heavy -- no verdict in 1500 s even with concrete keys. The known unsorted emission in write_xref_stream is visible by reading but is not a solver verdict.",
- "C21": "emitter -> tokenizer round trip: the operator emitter (graphics/ops.rs serialize_ops) formats through write!/format! with f64 operands (float formatting is out of reach) and the operator-level ContentParser works on heap token stacks; the tokenizer's termination/no-panic on arbitrary bytes is decided for name tokens under C01 (name_token), the rest of the tokenizer reaches std float parsing.",
  "C22": "quantifies over interleavings of std::thread workers, an mpsc dispatcher and a collector; Kani does not model threads, and a sequentialised shim would decide one schedule, not the quantifier.",
  "C28": "link consistency is a property of objects emitted through write_outline_item -> write_object (object-id allocation, HashMap dictionaries); no separable kernel decides first/last/next/prev/parent consistency or the sign convention.",
 }
